@@ -289,9 +289,20 @@ func hfWordNamesSpelt(b []byte, spelling string) ([]byte, error) {
 	main := p.MainDocName()
 	relsName := RelsPartFor(main)
 	target := map[string]string{} // relationship id -> raw target
+	// an earlier step may have left the targets in another legal spelling ("./header1.xml", "/word/header1.xml"):
+	// the part is the same, so the renaming works on the plain relative spelling
+	plain := func(t string) string {
+		if strings.HasPrefix(t, "./") {
+			return t[2:]
+		}
+		if strings.HasPrefix(t, "/word/") {
+			return t[len("/word/"):]
+		}
+		return t
+	}
 	for _, r := range p.Rels[relsName] {
 		if (r.Type == relHeader || r.Type == relFooter) && r.Mode != "External" {
-			target[r.ID] = r.Target
+			target[r.ID] = plain(r.Target)
 		}
 	}
 	var sect *Node
@@ -363,7 +374,13 @@ func hfWordNamesSpelt(b []byte, spelling string) ([]byte, error) {
 		}
 		switch name {
 		case relsName:
-			data = swap(data, `Target="`)
+			t0 := string(data)
+			for _, r := range p.Rels[relsName] {
+				if (r.Type == relHeader || r.Type == relFooter) && r.Mode != "External" && plain(r.Target) != r.Target {
+					t0 = strings.ReplaceAll(t0, `Target="`+r.Target+`"`, `Target="`+plain(r.Target)+`"`)
+				}
+			}
+			data = swap([]byte(t0), `Target="`)
 			if spelling != "" {
 				t := string(data)
 				for _, nn := range ren {
